@@ -237,6 +237,9 @@ pub fn guard<T>(f: impl FnOnce() -> T) -> Option<T> {
 /// raised by the database engine while preparing or running a statement
 pub fn sql_error_text(e: &dv::database::Error) -> Option<String> {
     match e {
+        // an error raised while a prepared statement runs is marked: the full text search
+        // expression errors are of that kind
+        dv::database::Error::Database(r @ rusqlite::Error::SqliteFailure(_, _)) => Some(format!("RUNTIME {}", r)),
         dv::database::Error::Database(r) => Some(format!("{}", r)),
         _ => None,
     }
@@ -246,7 +249,11 @@ pub fn sql_error_text(e: &dv::database::Error) -> Option<String> {
 /// (full text search expressions are a little language of their own): not "a generated statement
 /// rejected by the engine"
 pub fn is_data_error(msg: &str) -> bool {
-    let m = msg.to_lowercase();
+    let runtime = msg.starts_with("RUNTIME ");
+    let m = msg.trim_start_matches("RUNTIME ").to_lowercase();
+    if runtime && (m.starts_with("no such column") || m.contains("syntax error near") || m.starts_with("unknown special query")) {
+        return true;
+    }
     m.starts_with("fts5:") || m.contains("fts5: syntax error") || m.contains("unterminated string") && m.contains("fts5")
         || m.contains("no such column") && m.contains("fts5")
         || m.contains("unknown special query")
@@ -456,6 +463,7 @@ fn normalise_sql_msg(msg: &str) -> String {
 
 /// signature `sql:<shape>` of a database engine error on a request that passed parsing
 pub fn classify_sql(kind: &str, msg: &str, facts: &SqlFacts) -> String {
+    let msg = msg.trim_start_matches("RUNTIME ");
     // rusqlite appends " in <sql> at offset n": the statement is not part of the shape
     let msg = match msg.find(" in SELECT") {
         Some(i) => &msg[..i],
@@ -477,8 +485,11 @@ pub fn classify_sql(kind: &str, msg: &str, facts: &SqlFacts) -> String {
         return "sql:reference-filter-in-aggregate-query".to_string();
     }
     let syntax = msg.contains("syntax error") || msg.contains("unrecognized token");
-    if syntax && facts.alias_candidates.iter().any(|a| !a.is_empty() && a.chars().all(|c| c == '$')) {
-        return "sql:alias-made-of-dots".to_string();
+    if syntax && facts.alias_candidates.iter().any(|a| a.starts_with('$')) {
+        return "sql:alias-starting-with-a-dot".to_string();
+    }
+    if msg.contains("unknown join type") && facts.alias_candidates.iter().any(|a| is_sql_keyword(a)) {
+        return "sql:reserved-word-as-table-alias".to_string();
     }
     if syntax && facts.alias_candidates.iter().any(|a| a.chars().next().map(|c| c.is_ascii_digit()).unwrap_or(false)) && !facts.json_default_selected {
         return "sql:digit-first-identifier-as-table-alias".to_string();
@@ -497,7 +508,7 @@ pub fn classify_sql(kind: &str, msg: &str, facts: &SqlFacts) -> String {
     }
     // "<literal>AND": a filter on a literal followed by a json filter
     if let Some(tok) = &near {
-        if (tok.ends_with("AND") && tok.len() > 3 && msg.contains("unrecognized token")) || (tok == "_json" && msg.contains("syntax error")) {
+        if (tok.ends_with("AND") && tok.len() > 3) || (tok == "_json" && msg.contains("syntax error")) {
             return "sql:literal-filter-then-json-filter-missing-space".to_string();
         }
     }
